@@ -13,11 +13,18 @@ namespace sim {
 namespace {
 
 enum GenFault { G_NONE, G_ZERO_RAND, G_SK_ZERO, G_SK_OVER, G_ZERO_KEYOBJ, G_BAD_CACHE, G_NFAULTS };
-enum SignFault { S_NONE, S_OTHER_KEY, S_NEG_KEY, S_ZERO_KEYPAIR, S_NULL_OUT, S_BAD_CACHE, S_BAD_SESSION, S_ZEROED_SLOT, S_NFAULTS };
+enum SignFault { S_NONE, S_OTHER_KEY, S_NEG_KEY, S_ZERO_KEYPAIR, S_NULL_OUT, S_BAD_CACHE, S_BAD_SESSION, S_ZEROED_SLOT, S_NULL_KEYPAIR, S_NULL_CACHE, S_NULL_SESSION, S_NFAULTS };
 const char *const GFN[] = {"ok", "zero_secrand", "seckey_zero", "seckey_overflow", "zeroed_key_object", "bad_cache"};
-const char *const SFN[] = {"ok", "other_keypair", "negated_keypair", "zeroed_keypair", "null_output", "bad_cache", "bad_session", "zeroed_slot"};
+const char *const SFN[] = {"ok", "other_keypair", "negated_keypair", "zeroed_keypair", "null_output", "bad_cache", "bad_session", "zeroed_slot", "null_keypair", "null_cache", "null_session"};
 
 bool all_zero(const void *p, size_t n) { const uint8_t *b = (const uint8_t *)p; for (size_t i = 0; i < n; i++) if (b[i]) return false; return true; }
+
+// watched secret nonce: is it still live while the illegal callback runs?
+const secp256k1_musig_secnonce *g_watch = nullptr; int g_watch_live_at_cb = 0;
+void watching_illegal_cb(const char *msg, void *data) {
+    counting_illegal_cb(msg, data);
+    if (g_watch && !all_zero(g_watch, sizeof *g_watch)) g_watch_live_at_cb++;
+}
 
 struct Slot {
     secp256k1_musig_secnonce sn;
@@ -56,6 +63,7 @@ static void nonce_api_execute(const Plan &p, const ExecOpts &, Result &r) {
     auto fresh32 = [&](uint8_t *out) { uint8_t b[16]; for (int i = 0; i < 8; i++) { b[i] = (uint8_t)(inseed >> (8 * i)); b[8 + i] = (uint8_t)(draw >> (8 * i)); } draw++; ref::sha256(b, 16, out); };
     secp256k1_context *ctx = L(secp256k1_context_create(SECP256K1_CONTEXT_NONE));
     if (p.c("rand_ctx")) { uint8_t s[32]; fresh32(s); (void)L(secp256k1_context_randomize(ctx, s)); }
+    L(secp256k1_context_set_illegal_callback(ctx, watching_illegal_cb, NULL));
     int nslots = (int)std::max<int64_t>(1, std::min<int64_t>(3, p.c("slots", 1)));
     // keys 0,1 and key 2 = negation of key 0 (same x coordinate, other y)
     uint8_t sk[3][32]; secp256k1_keypair kp[3]; secp256k1_pubkey pk[3];
@@ -139,12 +147,17 @@ static void nonce_api_execute(const Plan &p, const ExecOpts &, Result &r) {
             secp256k1_keypair kparg = kp[kidx];
             if (f == S_ZERO_KEYPAIR) memset(&kparg, 0, sizeof kparg);
             secp256k1_musig_partial_sig out, out0; memset(&out, 0x77, sizeof out); out0 = out;
-            secp256k1_musig_partial_sig *outp = f == S_NULL_OUT ? NULL : &out;
-            const secp256k1_musig_keyagg_cache *carg = f == S_BAD_CACHE ? &bad_cache : &cache;
-            const secp256k1_musig_session *sarg = f == S_BAD_SESSION ? &bad_sess : &sess[si];
+            secp256k1_musig_partial_sig *volatile outp = f == S_NULL_OUT ? NULL : &out;
+            const secp256k1_musig_keyagg_cache *volatile carg = f == S_BAD_CACHE ? &bad_cache : (f == S_NULL_CACHE ? NULL : &cache);
+            const secp256k1_musig_session *volatile sarg = f == S_BAD_SESSION ? &bad_sess : (f == S_NULL_SESSION ? NULL : &sess[si]);
+            const secp256k1_keypair *volatile kpp = f == S_NULL_KEYPAIR ? NULL : &kparg;
+            // observation at callback time (probe only: the header defines behaviour for callbacks that return or abort the process)
+            g_watch = &s.sn; g_watch_live_at_cb = 0;
             bool was_live = s.live;
             int64_t ill0 = g_mon.illegal_count;
-            int ret = L01(secp256k1_musig_partial_sign(ctx, outp, &s.sn, &kparg, carg, sarg));
+            int ret = L01(secp256k1_musig_partial_sign(ctx, outp, &s.sn, kpp, carg, sarg));
+            g_watch = nullptr;
+            if (was_live && g_watch_live_at_cb) r.probe("secnonce_still_live_inside_illegal_callback");
             int64_t ill = g_mon.illegal_count - ill0;
             bool expect = was_live && f == S_NONE;
             if (f != S_NONE) r.fault(std::string("sign.") + SFN[f]);
@@ -155,7 +168,7 @@ static void nonce_api_execute(const Plan &p, const ExecOpts &, Result &r) {
             if (!all_zero(&s.sn, sizeof s.sn)) { r.violate("C13", "secnonce_not_wiped", "secp256k1_musig_partial_sign", cell + ": secret nonce object not all-zero after the call returned " + std::to_string(ret)); break; }
             if (expect && ill) { r.violate("C13", "callback", "secp256k1_musig_partial_sign", "illegal callback on a valid signing call: " + g_mon.last_illegal); break; }
             if ((ret != 0) != expect) { r.violate("C13", expect ? "sign_failed" : (was_live ? "signed_despite_invalid_argument" : "signed_with_dead_nonce"), "secp256k1_musig_partial_sign", cell + ": returned " + std::to_string(ret) + ", the single-use model expects " + std::to_string(expect)); break; }
-            if (!ret && memcmp(&out, &out0, sizeof out) != 0 && s.have_pn && f != S_ZERO_KEYPAIR) {
+            if (!ret && memcmp(&out, &out0, sizeof out) != 0 && s.have_pn && f != S_ZERO_KEYPAIR && f != S_NULL_KEYPAIR) {
                 // a failing call wrote something: it must not be a valid signature for this nonce
                 int64_t i1 = g_mon.illegal_count;
                 int v = L(secp256k1_musig_partial_sig_verify(ctx, &out, &s.pn, &pk[kidx], &cache, &sess[si]));
